@@ -238,6 +238,12 @@ def run(tier, replay=None):
     # concrete cases from the other specifications' explorations
     _, lcases = loadcheck.tlc_cases('MC_LoadRef_main.cfg')
     lcases = [c for c in lcases if c['doc']['r'] != 0]
+    # aliased and self-referential documents as well (error paths that depend
+    # on marks / node identity must not depend on the kind of source)
+    _, acases = loadcheck.tlc_cases('MC_LoadRef_alias.cfg')
+    acases = [c for c in acases if c['nalias'] > 0]
+    rnd.shuffle(acases)
+    lcases = lcases + acases[:max(2000, len(lcases) // 3)]
     dstats, dcases = loadcheck.tlc_cases(
         'MC_RoundTrip_q.cfg', module='MC_RoundTrip',
         extra_files=('RoundTrip.tla',), dimplicit=dumpcheck.live_dimplicit())
